@@ -1,7 +1,9 @@
 (* extraction of the executable C07 model (PrimFloat -> OCaml floats via coq-core.kernel Float64) *)
 From Coq Require Import List ZArith Floats Extraction ExtrOcamlBasic ExtrOCamlFloats.
-From LN Require Import C07_Defs.
+From LN Require Import C07_Defs C07_Init_Defs.
 Extraction Language OCaml.
 Extraction "extracted/c07_model.ml" ls_get alg_of_Z cubic quadratic secant bisection interpolate
   eps0 eps1 stpmin stpmax has_descent has_armijo has_wolfe has_strong_wolfe has_approx_armijo has_approx_wolfe
-  fclamp fmin fmax.
+  fclamp fmin fmax
+  (* INIT stage: the step-length initialisers and lsearch_t::get *)
+  lsearch0_get lsearch_get lsearch_run lsearch0_run cg0_trial_coord kind0_of_Z mem_init lsmem_init init_step iter_evals.
